@@ -213,10 +213,14 @@ package commitlog
 //@   ensures [prefix-kept] len(l.epochOffsets) >= old(len(l.epochOffsets)) && (forall i int :: 0 <= i && i < old(len(l.epochOffsets)) ==> l.epochOffsets[i] == old(l.epochOffsets[i]) && l.epochOffsets[i].leaderEpoch == old(l.epochOffsets[i].leaderEpoch) && l.epochOffsets[i].startOffset == old(l.epochOffsets[i].startOffset))
 //@   ensures [rejected-unchanged] !(epoch > old(len(l.epochOffsets) == 0 ? 0 : l.epochOffsets[len(l.epochOffsets)-1].leaderEpoch) && offset >= old(len(l.epochOffsets) == 0 ? -1 : l.epochOffsets[len(l.epochOffsets)-1].startOffset)) ==> len(l.epochOffsets) == old(len(l.epochOffsets))
 
+//@ pure func lastEpochOf(c *leaderEpochCache) uint64 = len(c.epochOffsets) == 0 ? 0 : c.epochOffsets[len(c.epochOffsets)-1].leaderEpoch
+//@ pure func lastStartOf(c *leaderEpochCache) int64 = len(c.epochOffsets) == 0 ? -1 : c.epochOffsets[len(c.epochOffsets)-1].startOffset
 //@ func (*leaderEpochCache).Assign serves C02
 //@   requires l != nil && wfEpochs(l)
 //@   ensures wfEpochs(l)
 //@   ensures len(l.epochOffsets) >= old(len(l.epochOffsets))
+//@   ensures [recorded] result == nil && epoch > old(lastEpochOf(l)) && offset >= old(lastStartOf(l)) ==> lastEpochOf(l) == epoch && lastStartOf(l) == offset
+//@   ensures [otherwise-latest-kept] !(epoch > old(lastEpochOf(l)) && offset >= old(lastStartOf(l))) ==> lastEpochOf(l) == old(lastEpochOf(l)) && lastStartOf(l) == old(lastStartOf(l))
 
 //@ func (*leaderEpochCache).LastLeaderEpoch serves C02
 //@   requires l != nil && wfEpochs(l)
@@ -366,6 +370,12 @@ package commitlog
 //@   ensures [base-kept] forall x *segment :: x.BaseOffset == old(x.BaseOffset)
 //@   ensures [log-kept] forall x *commitLog :: x.vActiveSegment == old(x.vActiveSegment)
 //@   ensures [epochs-wf] wfEpochs(l.leaderEpochCache)
+//@   assumes forall j int :: 0 <= j && j < len(entries) ==> entries[j].Offset >= lastStartOf(l.leaderEpochCache)
+//@   assumes forall j int, k int :: 0 <= j && j < k && k < len(entries) ==> entries[j].Offset <= entries[k].Offset
+//@   ensures [every-epoch-of-the-batch-recorded] err == nil ==> (forall j int :: 0 <= j && j < len(entries) ==> old(entries[j].LeaderEpoch) <= lastEpochOf(l.leaderEpochCache))
+//@   loop 1 invariant lastLeaderEpoch == lastEpochOf(l.leaderEpochCache) && (forall j int :: 0 <= j && j <= rangeindex ==> old(entries[j].LeaderEpoch) <= lastLeaderEpoch)
+//@   loop 1 invariant forall j int :: 0 <= j && j < len(entries) ==> entries[j].LeaderEpoch == old(entries[j].LeaderEpoch)
+//@   loop 1 invariant forall j int :: rangeindex < j && j < len(entries) ==> entries[j].Offset >= lastStartOf(l.leaderEpochCache)
 //@   loop 1 invariant -1 <= rangeindex && rangeindex < len(entries) && fresh(offsets) && len(offsets) == len(entries)
 //@   loop 1 invariant forall j int :: 0 <= j && j < len(entries) ==> entries[j] == old(entries[j]) && entries[j] != nil && entries[j].Offset == old(entries[j].Offset)
 //@   loop 1 invariant forall j int :: 0 <= j && j <= rangeindex ==> offsets[j] == old(entries[j].Offset)
@@ -789,3 +799,17 @@ package commitlog
 //@   ensures [own-history-kept] len(l.epochOffsets) >= old(len(l.epochOffsets)) && (forall i int :: 0 <= i && i < old(len(l.epochOffsets)) ==> l.epochOffsets[i] == old(l.epochOffsets[i]) && l.epochOffsets[i].leaderEpoch == old(l.epochOffsets[i].leaderEpoch) && l.epochOffsets[i].startOffset == old(l.epochOffsets[i].startOffset))
 //@   call assign requires [only-newer-epochs] arg1 > (len(l.epochOffsets) == 0 ? 0 : l.epochOffsets[len(l.epochOffsets)-1].leaderEpoch)
 //@   loop 1 invariant wfEpochs(l) && len(l.epochOffsets) >= old(len(l.epochOffsets)) && (forall i int :: 0 <= i && i < old(len(l.epochOffsets)) ==> l.epochOffsets[i] == old(l.epochOffsets[i]) && l.epochOffsets[i].leaderEpoch == old(l.epochOffsets[i].leaderEpoch) && l.epochOffsets[i].startOffset == old(l.epochOffsets[i].startOffset))
+
+// opening a log: the leader-epoch history read from its checkpoint is trimmed to exactly the log that was found -
+// entries starting at or after the log's next offset, and entries before its oldest offset, go (C02, C05)
+//@ assume func newLeaderEpochCache
+//@   returns (c, err)
+//@   ensures err == nil ==> c != nil && wfEpochs(c)
+//@   ensures err != nil ==> c == nil
+//@ ghost var oldestSeen int64
+//@ func New serves C02, C05
+//@   ghost after call OldestOffset: ghost.oldestSeen := ret0
+//@   call ClearLatest requires [history-trimmed-to-the-log-end] arg1 == nextOf(l.vActiveSegment)
+//@   call ClearEarliest requires [history-trimmed-to-the-log-start] arg1 == ghost.oldestSeen
+//@ func (*commitLog).open serves C02, C05
+//@   ensures assumed [active-segment-set] result == nil ==> l.vActiveSegment != nil
